@@ -92,6 +92,30 @@ def tube_distance(src, phi, walls, vels, last_len, delta=1e-5):
     return dist
 
 
+def _couplant(geom, arim, attenuation):
+    key = "_couplant"
+    _cache = geom
+    if key not in _cache:
+        kw = {}
+        if attenuation:
+            kw["longitudinal_att"] = arim.material_attenuation_factory("constant", attenuation[0])
+        _cache[key] = arim.Material(longitudinal_vel=geom["c_f"], density=geom["rho_f"], state_of_matter="liquid", **kw)
+    return _cache[key]
+
+
+def _block(geom, arim, attenuation):
+    key = "_block"
+    _cache = geom
+    if key not in _cache:
+        kw = {}
+        if attenuation:
+            kw["longitudinal_att"] = arim.material_attenuation_factory("constant", attenuation[1])
+            kw["transverse_att"] = arim.material_attenuation_factory("constant", attenuation[2])
+        _cache[key] = arim.Material(longitudinal_vel=geom["c_l"], transverse_vel=geom["c_t"], density=geom["rho_s"],
+                                    state_of_matter="solid", **kw)
+    return _cache[key]
+
+
 def random_geometry(rng, nlegs=None, max_tilt_deg=20.0, max_inc_deg=75.0):
     """Random source, walls (front wall z~0 transmission, then alternating back/front
     reflections), velocities (changes at every interface allowed = mode conversion)."""
@@ -99,9 +123,13 @@ def random_geometry(rng, nlegs=None, max_tilt_deg=20.0, max_inc_deg=75.0):
     c_f = float(rng.uniform(900, 2000))
     c_l = float(rng.uniform(3000, 7000))
     c_t = float(c_l * rng.uniform(0.40, 0.68))
-    vels = [c_f] + [float(rng.choice([c_l, c_t])) for _ in range(nlegs - 1)]
+    modes = ["L"] + [str(rng.choice(["L", "T"])) for _ in range(nlegs - 1)]
+    vels = [c_f] + [c_l if m == "L" else c_t for m in modes[1:]]
+    immersion = True
     if rng.random() < 0.2:                      # all legs inside the block (contact-like)
-        vels[0] = float(rng.choice([c_l, c_t]))
+        modes[0] = str(rng.choice(["L", "T"]))
+        vels[0] = c_l if modes[0] == "L" else c_t
+        immersion = False
     depth = float(rng.uniform(10e-3, 50e-3))
     walls = []
     for k in range(nlegs - 1):
@@ -124,11 +152,15 @@ def random_geometry(rng, nlegs=None, max_tilt_deg=20.0, max_inc_deg=75.0):
         return None
     legs = [float(np.linalg.norm(pts[k + 1] - pts[k])) for k in range(nlegs)]
     return dict(src=src, phi=phi, walls=walls, vels=vels, last_len=last_len, pts=pts, dirs=dirs,
-                legs=legs, inc=inc, out=out_angles(dirs, walls), nlegs=nlegs)
+                legs=legs, inc=inc, out=out_angles(dirs, walls), nlegs=nlegs, modes=modes, immersion=immersion,
+                c_f=c_f, c_l=c_l, c_t=c_t, rho_f=float(rng.uniform(800, 1300)), rho_s=float(rng.uniform(2000, 9000)))
 
 
-def arim_path(geom, arim, modes=None):
-    """One-point Interfaces, Path and Rays for the traced ray (real arim objects)."""
+def arim_path(geom, arim, physical=False, attenuation=None):
+    """One-point Interfaces, Path and Rays for the traced ray (real arim objects).
+    physical=True (immersion geometries only): couplant/block Materials, L/T modes and
+    interface kinds / transmission-reflection flags as block_in_immersion builds them, so that
+    the transmission-reflection functions can be evaluated on the path."""
     g = arim.geometry
     pts, dirs, walls, vels = geom["pts"], geom["dirs"], geom["walls"], geom["vels"]
     npts = len(pts)
@@ -147,9 +179,21 @@ def arim_path(geom, arim, modes=None):
             kwargs["are_normals_on_out_rays_side"] = True
         else:
             kwargs["are_normals_on_inc_rays_side"] = True
+        if physical and 0 < i < npts - 1:
+            assert geom["immersion"]
+            if walls[i - 1][2] == "T":
+                kwargs.update(kind="fluid_solid", transmission_reflection="transmission")
+            else:
+                kwargs.update(kind="solid_fluid", transmission_reflection="reflection",
+                              reflection_against=_couplant(geom, arim, attenuation))
         interfaces.append(arim.Interface(points, basis, **kwargs))
-    materials = [arim.Material(longitudinal_vel=v) for v in vels]
-    path = arim.Path(interfaces, materials, ["L"] * len(vels))
+    if physical:
+        couplant, block = _couplant(geom, arim, attenuation), _block(geom, arim, attenuation)
+        materials = [couplant] + [block] * (len(vels) - 1)
+        path = arim.Path(interfaces, materials, [arim.Mode[m] for m in geom["modes"]])
+    else:
+        materials = [arim.Material(longitudinal_vel=v) for v in vels]
+        path = arim.Path(interfaces, materials, ["L"] * len(vels))
     rays = arim.ray.Rays(np.zeros((1, 1)), np.zeros((npts - 2, 1, 1), arim.settings.INT), path.to_fermat_path())
     path.rays = rays
     return path
